@@ -10,7 +10,7 @@ use serde_json::{json, Value};
 use std::num::NonZero;
 use vph::refdec;
 
-pub const RULE: &str = "every input length 1..49 (thorough 1..97) (block 16) × 3 signal kinds × channels {1,2} (thorough + 3, 8) × depth {8,16} (thorough + 24, 32) × seek policy {off, frames 1/2/3, seconds 1 at rates 16/24/44100/0} × declared/undeclared × padding {none, 4096, 0, 4+18k+δ for δ∈−8..8 (k = seek points of this configuration)} × writer start offset {0,7} × extra metadata {none, comment + 2 application blocks + picture}; plus long streams (lengths 65535, 65536, 65537, 65551..65553, 69632, 106496, 106596, 131075 PCM frames × block 16/4096 × seconds/frames policies at 4 rates × declared/undeclared × padding default/none) , sinks that accept 1 / 5 / 64 bytes per write call (5 lengths × 3 seek policies × 3 formats), and big frames (one block of 64 KiB and more of interleaved PCM: 8×24-bit×4096, 2×16-bit×16384/16385, mono 16-bit 32768/32769/40000, 2×32-bit×8193, 3×24-bit×7282, 8×32-bit×2049); each finished device image is judged by the independent validator (sample count, parameters, frame-size extrema, block-size rule, MD5, every defined seek point = a real frame, ordering, placeholders last), by the device call log (nothing written before the stream start; once audio exists no write touches bytes that already hold audio) and by generate_seektable(file, same interval) == defined points; plus the byte (LE/BE) and channel writers × length 1..49 × channels {1,2} × depth {8,12,16,24,32} × declared/undeclared × seek table on/off judged by the independent validator; thorough adds >932067-frame streams";
+pub const RULE: &str = "every input length 1..49 (thorough 1..97) (block 16) × 3 signal kinds × channels {1,2} (thorough + 3, 8) × depth {8,16} (thorough + 24, 32) × seek policy {off, frames 1/2/3, seconds 1 at rates 16/24/44100/0} × declared/undeclared × padding {none, 4096, 0, 4+18k+δ for δ∈−8..8 (k = seek points of this configuration)} × writer start offset {0,7} × extra metadata {none; odd lengths: tag + 2 application blocks + picture through tag/application/picture/add_block; even lengths: comment + cue sheet + 2 application blocks through comment/cuesheet/add_blocks}; plus long streams (lengths 65535, 65536, 65537, 65551..65553, 69632, 106496, 106596, 131075 PCM frames × block 16/4096 × seconds/frames policies at 4 rates × declared/undeclared × padding default/none) , sinks that accept 1 / 5 / 64 bytes per write call (5 lengths × 3 seek policies × 3 formats), and big frames (one block of 64 KiB and more of interleaved PCM: 8×24-bit×4096, 2×16-bit×16384/16385, mono 16-bit 32768/32769/40000, 2×32-bit×8193, 3×24-bit×7282, 8×32-bit×2049); each finished device image is judged by the independent validator (sample count, parameters, frame-size extrema, block-size rule, MD5, every defined seek point = a real frame, ordering, placeholders last), by the device call log (nothing written before the stream start; once audio exists no write touches bytes that already hold audio) and by generate_seektable(file, same interval) == defined points; plus the byte (LE/BE) and channel writers × length 1..49 × channels {1,2} × depth {8,12,16,24,32} × declared/undeclared × seek table on/off judged by the independent validator; thorough adds >932067-frame streams";
 pub const ASSUMPTIONS: &[&str] = &["PCM values come from 3 fixed signal kinds (values: C01)"];
 pub fn bounds(quick: bool) -> Value {
     json!({"lengths": if quick { "1..49; channels 1,2; depths 8,16" } else { "1..97; channels 1,2,3,8; depths 8,16,24,32" }, "padding_delta": "-8..8", "huge_stream": if quick { "not run" } else { "932100 frames of 16 constant samples, declared and undeclared, seektable_frames(1)" }})
@@ -76,7 +76,18 @@ fn run_case(c: &Cfg) -> Result<(), (String, String)> {
         let mut dev = MemDevice::new(junk.clone(), c.start as u64);
         dev.max_write = c.sink;
         let mut o = opt.to_options()?;
-        if c.extra {
+        if c.extra && c.len % 2 == 0 {
+            // the other metadata entry points of Options: comment(), cuesheet(), add_blocks()
+            let mut vc = flac_codec::metadata::VorbisComment::default();
+            vc.vendor_string = "verif-vendor".into();
+            vc.fields.push("ARTIST=a".into());
+            o = o.comment(vc);
+            let sheet = "FILE \"x.wav\" WAVE\n  TRACK 01 AUDIO\n    INDEX 01 00:00:00\n";
+            if let Ok(cs) = flac_codec::metadata::Cuesheet::parse(44100 * 10, sheet) {
+                o = o.cuesheet(cs);
+            }
+            o.add_blocks([Application { id: 0x76657233, data: vec![7; 4] }, Application { id: 0x76657234, data: vec![] }]);
+        } else if c.extra {
             o = o.tag("TITLE", "verif").application(Application { id: 0x76657269, data: vec![1, 2, 3] }).picture(flac_codec::metadata::Picture {
                 picture_type: flac_codec::metadata::PictureType::FrontCover,
                 media_type: "image/png".into(),
